@@ -13,6 +13,9 @@ import time
 
 ROOT = os.path.dirname(os.path.dirname(os.path.abspath(__file__)))
 REPO = os.environ.get("VERIF_REPO", "/repo")
+if os.path.exists(os.path.join(ROOT, ".verif_repo")) and "VERIF_REPO" not in os.environ:
+    # development worktrees of /verif are paired with their own worktree of /repo
+    REPO = open(os.path.join(ROOT, ".verif_repo")).read().strip()
 SPECS = os.path.join(ROOT, "specs")
 BUILD = os.path.join(ROOT, ".build")
 SCRATCH_BASE = os.environ.get("VERIF_SCRATCH", "/var/tmp/verif-scratch")
